@@ -1,4 +1,57 @@
-import TonVerif.Model.Cell
+/-
+C01 — ordinary cell hash and depth are the TON representation hash and depth.
+
+`Model.Cell.info H` is the executable mirror of the Python `Cell` constructor; `ordHash`/`ordDepth`
+(Proofs/OrdCell.lean) are the textbook definitions (tvm.pdf 3.1.4-3.1.5):
+  hash  = H( d1 d2 ++ data padded with the completion tag ++ children depths (2 bytes) ++ children hashes )
+  depth = 0 without references, else 1 + max children depth.
+`H` (SHA-256) is an arbitrary function.  All statements quantify over EVERY tree of ordinary cells
+(any bit length 0..1023, 0..4 references, any shape).
+-/
+import TonVerif.Proofs.OrdCell
+
 namespace TonVerif.Properties.C01
-theorem placeholder : True := trivial
+open TonVerif TonVerif.Model TonVerif.Proofs.OrdCell
+
+/-- hash and depth: a tree of ordinary cells of depth ≤ 1023 is constructible, has level mask 0, and its
+hash / depth at every level are the standard representation hash / depth. -/
+theorem c01_hash_depth (H : Bytes → Bytes) (c : Cell) (wf : OrdWF c) (hd : ordDepth c ≤ 1023) :
+    ∃ i, Cell.info H c = some i ∧ i.mask = 0 ∧ i.hash = ordHash H c ∧
+      ∀ l, i.getHash l = some (ordHash H c) ∧ i.getDepth l = some (ordDepth c) := by
+  obtain ⟨i, h1, h2, _, h4, h5⟩ := ord_info H c wf hd
+  exact ⟨i, h1, h2, h4, h5⟩
+
+/-- depth limit: constructible exactly when the depth is at most 1023. -/
+theorem c01_constructible_iff (H : Bytes → Bytes) (c : Cell) (wf : OrdWF c) :
+    (Cell.info H c).isSome ↔ ordDepth c ≤ 1023 := by
+  constructor
+  · intro h
+    by_cases hd : ordDepth c ≤ 1023
+    · exact hd
+    · have := ord_too_deep H c wf (by omega)
+      simp [this] at h
+  · intro hd
+    obtain ⟨i, h1, _⟩ := ord_info H c wf hd
+    simp [h1]
+
+/-- the explicitly recomputed representation hash agrees with the cached one. -/
+theorem c01_repr_agrees (H : Bytes → Bytes) (kind : Int) (bits : Bits) (refs : List Cell)
+    (wf : OrdWF (.mk kind bits refs)) (hd : ordDepth (.mk kind bits refs) ≤ 1023) :
+    ∃ i ks, Cell.info H (.mk kind bits refs) = some i ∧ Cell.infos H refs = some ks ∧
+      (representation i ks).map H = some i.hash :=
+  ord_representation H kind bits refs wf hd
+
+/-- `==` holds exactly when the hashes are equal. -/
+theorem c01_eq_iff_hash (a b : CellInfo) : a.pyEq b = true ↔ a.hash = b.hash := pyEq_iff a b
+
+/-- `__hash__` values (dict keys) coincide exactly when the hashes are equal (hashes being byte strings of equal length). -/
+theorem c01_pyhash_iff_hash (a b : CellInfo) (ha : Bytes.WF a.hash) (hb : Bytes.WF b.hash)
+    (hl : a.hash.length = b.hash.length) : a.pyHash = b.pyHash ↔ a.hash = b.hash :=
+  pyHash_iff a b ha hb hl
+
+/-! Non-vacuity: a 5-bit cell with two references to leaf cells satisfies the hypotheses. -/
+def sample : Cell := .mk (-1) [true, false, true, true, false] [.mk (-1) [] [], .mk (-1) [true] []]
+example : OrdWF sample ∧ ordDepth sample ≤ 1023 := by
+  simp [sample, OrdWF, OrdWFs, ordDepth, ordDepthMax]
+
 end TonVerif.Properties.C01
